@@ -32,7 +32,7 @@ fn oracle_dpl(low: u64) -> u16 {
 }
 
 macro_rules! gdt_for_max {
-    ($m:ident, $MAX:expr, $UNW:expr, $FITS:meta) => {
+    ($m:ident, $MAX:expr, $UNW:expr, $FITS:meta, $n_fits:ident, $n_full:ident, $n_raw:ident, $n_empty:ident) => {
         mod $m {
             use super::*;
             const MAX: usize = $MAX;
@@ -43,7 +43,7 @@ macro_rules! gdt_for_max {
             #[cfg($FITS)]
             #[kani::proof]
             #[kani::unwind($UNW)]
-            fn c14_append_fits() {
+            fn $n_fits() {
                 let mut t = any_table::<MAX>();
                 let before = t.clone();
                 let d = any_descriptor();
@@ -80,7 +80,7 @@ macro_rules! gdt_for_max {
 
             #[kani::proof]
             #[kani::unwind($UNW)]
-            fn c14_append_full_xpanic() {
+            fn $n_full() {
                 let mut t = any_table::<MAX>();
                 let d = any_descriptor();
                 let need = match d {
@@ -96,7 +96,7 @@ macro_rules! gdt_for_max {
 
             #[kani::proof]
             #[kani::unwind($UNW)]
-            fn c14_entries_limit_from_raw() {
+            fn $n_raw() {
                 let t = any_table::<MAX>();
                 vp!(C14, t.limit() as usize == 8 * t.len - 1, "limit is not 8 x used slots - 1");
                 let e = t.entries();
@@ -120,7 +120,7 @@ macro_rules! gdt_for_max {
             }
 
             #[kani::proof]
-            fn c14_empty_table() {
+            fn $n_empty() {
                 let t = GlobalDescriptorTable::<MAX>::empty();
                 vp!(C14, t.len == 1 && t.table[0].raw() == 0, "empty() is not a single null descriptor");
                 vp!(C14, t.limit() == 7, "empty() limit is not 7");
@@ -130,11 +130,13 @@ macro_rules! gdt_for_max {
         }
     };
 }
-gdt_for_max!(max1, 1, 3, not(kani));
-gdt_for_max!(max2, 2, 4, kani);
-gdt_for_max!(max3, 3, 5, kani);
-gdt_for_max!(max8, 8, 10, kani);
-gdt_for_max!(max9, 9, 11, kani);
+gdt_for_max!(max1, 1, 3, not(kani), c14_append_fits, c14_append_full_xpanic, c14_entries_limit_from_raw, c14_empty_table);
+gdt_for_max!(max2, 2, 4, kani, c14_append_fits, c14_append_full_xpanic, c14_entries_limit_from_raw, c14_empty_table);
+gdt_for_max!(max3, 3, 5, kani, c14_append_fits, c14_append_full_xpanic, c14_entries_limit_from_raw, c14_empty_table);
+gdt_for_max!(max8, 8, 10, kani, c14_append_fits, c14_append_full_xpanic, c14_entries_limit_from_raw, c14_empty_table);
+gdt_for_max!(max9, 9, 11, kani, c14_append_fits, c14_append_full_xpanic, c14_entries_limit_from_raw, c14_empty_table);
+// thorough tier: a larger capacity
+gdt_for_max!(max32, 32, 34, kani, c14t_append_fits, c14t_append_full_xpanic, c14t_entries_limit_from_raw, c14t_empty_table);
 
 #[kani::proof]
 fn c14_from_raw_entries_rejects_xpanic() {
